@@ -227,7 +227,7 @@ def run_reset(ck: Check):
     rng = ck.rng
     thorough = ck.tier == "thorough"
     ck.rule(
-        "ResetStatisticalTest on 6 statistical-test detectors (KS, CvM, Mann-Whitney, Welch, Anderson-Darling, Kuiper): random sequences of fit / compare / reset with alpha on both sides of and exactly at the observed p-values; "
+        "tiny p-values (1e-9, 1e-18) against alphas a factor 100 below / above, equal, one ulp below, and 1e-300; ResetStatisticalTest on 6 statistical-test detectors (KS, CvM, Mann-Whitney, Welch, Anderson-Darling, Kuiper): random sequences of fit / compare / reset with alpha on both sides of and exactly at the observed p-values; "
         "a twin detector without the callback supplies the p-value; reset iff p <= alpha, the returned result equals the twin's, an unfitted compare raises MissingFitError; "
         "the fitted/unfitted state and every output are compared with the Coq model (brun); non-trivial = at least one reset fired and one did not"
     )
@@ -333,6 +333,24 @@ def run_reset(ck: Check):
             if math.isnan(pnan) and d.X_ref is None:
                 ck.violation(dict(clause="reset-iff", detector=cls.__name__, p="nan"), dict(what="the detector was reset although the returned p-value is NaN (not <= alpha)", detector=cls.__name__, alpha=alpha, reference=ref.tolist(), sample=[None if math.isnan(v) else float(v) for v in x]))
             ck.count("nan_p_cases", int(math.isnan(pnan)))
+    # tiny p-values and tiny alphas (both far below the spacing of floats near 1): two fully separated samples give
+    # p of order 1e-18 (KS, n = m = 32) / 1e-9 (n = m = 16); alpha a factor 100 below / above p and at p exactly
+    for nsep in (16, 32):
+        ref, x = np.arange(nsep, dtype=float), np.arange(nsep, dtype=float) + 1000.0
+        twin = KSTest()
+        twin.fit(X=ref)
+        p0 = float(twin.compare(X=x)[0].p_value)
+        if not (0 < p0 < 1e-6):
+            continue
+        for alpha in (p0 / 100, p0 * 100, p0, float(np.nextafter(p0, 0)), 1e-300):
+            d = KSTest(callbacks=[ResetStatisticalTest(alpha=alpha)])
+            d.fit(X=ref)
+            res_, _ = d.compare(X=x)
+            was_reset = d.X_ref is None
+            ck.case(dict(detector="KSTest", alpha=alpha, kind="tiny-p", p=p0), nontrivial=True, key=repr(("tinyp", nsep, alpha)))
+            ck.count("tiny_p_cases")
+            if was_reset != (p0 <= alpha) or float(res_.p_value) != p0:
+                ck.violation(dict(clause="reset-iff", detector="KSTest", p="tiny"), dict(what="reset decision differs from (p <= alpha) for a tiny p-value / tiny alpha", detector="KSTest", alpha=alpha, p=p0, was_reset=was_reset, n=nsep, reference=ref.tolist(), sample=x.tolist()))
     res = coq_eval("C17r", HDR17, exprs, shard=60)
     for (name, alpha, ops, cur, outs), r in zip(cases, res):
         ck.corr_cases += 1
